@@ -130,6 +130,7 @@ type Explorer struct {
 	canon     int
 	violPerID map[string]int
 	UnknownAsserts map[string]int64
+	BoundPaths []PathResult // paths that exhausted the step/depth budget, with the model reached so far
 	Truncated bool
 }
 
@@ -309,6 +310,9 @@ func (ex *Explorer) record(w *Worker, r *PathResult) {
 		ex.Unenc[r.Msg]++
 	case "bound":
 		ex.Bounds[r.Msg+" "+strings.Join(r.Notes, ";")+" "+fmt.Sprint(r.Vector)]++
+		if len(r.Vector) > 0 && len(ex.BoundPaths) < 12 {
+			ex.BoundPaths = append(ex.BoundPaths, *r)
+		}
 	case "panic":
 		ex.Panics[r.Msg]++
 	}
